@@ -60,7 +60,7 @@ func (c *ctlClock) Now() time.Time {
 	return r
 }
 func (c *ctlClock) Since(t time.Time) time.Duration { return c.T.Sub(t) }
-func (c *ctlClock) Set(t time.Time)                { c.T = t }
+func (c *ctlClock) Set(t time.Time)                 { c.T = t }
 
 // ---------------------------------------------------------------------------
 // harness
@@ -470,7 +470,7 @@ func (s *refSched) expectTick(cursor *time.Time, now time.Time, maxMissed int) (
 
 type simpleExpr struct {
 	sec, min, hour, dom, mon, dow, year map[int]bool
-	domStar, dowStar                   bool
+	domStar, dowStar                    bool
 }
 
 // parseSimpleField understands '*', numbers, ranges and steps. Like cronexpr (the trusted
